@@ -1,10 +1,11 @@
 Require Import ZArith List. Require Extraction. Require Import ExtrOcamlBasic.
-Require Import IW.Lib.CInt IW.UT.Conv IW.JSON.Val IW.JSON.Patch IW.JSON.Mem IW.JSON.Merge IW.JSON.PatchSpec IW.Gen.Facts IW.JSON.Binn IW.JSON.WriteBack.
+Require Import IW.Lib.CInt IW.UT.Conv IW.JSON.Val IW.JSON.Patch IW.JSON.Mem IW.JSON.Merge IW.JSON.PatchSpec IW.Gen.Facts IW.JSON.Binn IW.JSON.WriteBack IW.JSON.PatchId.
 Extraction "m.ml" Z.add Z.mul Z.sub Z.div_eucl Z.compare Z.of_nat Z.to_nat Z.opp
   node n_kl n_key n_ty n_vi n_vs n_ch fops rawop pop rc rc_code opk op_code ty_code
   nodes_eq patch_node create_patch decode_ops_exact patch_binary apply_op parse_ops
   merge_pool jbn_merge_patch_pool jbn_merge_patch_node jbn_patch_auto merge_patch_create jbn_merge_patch_path_pool merge_binary
   heap h_empty h_live herr hnode forget heap_of destroy jbn_merge_patch_heap jbn_merge_patch_path_heap
   iwjsreg_merge_model iwjsreg_merge_scalar
+  inode ipop i_of_node i_apply_ops i_ids i_parents_ok iforget lib_reparent i_id i_ch
   val doc_val of_val rfc_program merge_spec strict lenient
   wb_enc wb_store jbl_patch_model jbl_merge_model representable.
